@@ -335,6 +335,12 @@ impl InterpreterStorage for RecStorage {
     }
 }
 
+impl fuel_vm::storage::predicate::PredicateStorageRequirements for RecStorage {
+    fn storage_error_to_string(error: RecError) -> String {
+        format!("{error:?}")
+    }
+}
+
 #[allow(dead_code)]
 fn _assert_contract_is_vec(c: &Contract) -> &[u8] {
     c.as_ref()
